@@ -48,7 +48,10 @@ def run_group(run, scr, entries, jobs=12, package="cooklang"):
                 run.vccs += r.get("checks", 0)
         elif r["status"] == "failed":
             descs = [c["desc"] for c in r["failed_checks"]]
-            if is_twin and descs and all(d == "assertion failed: false" for d in descs):
+            if descs and all(d.startswith("unwinding assertion") for d in descs):
+                run.add_obligation(short, "kani", "inconclusive", **ob)
+                run.inconclusive.append("%s: unwinding bound too small for the current code (%s) - bounded claim cannot be made" % (short, descs[0]))
+            elif is_twin and descs and all(d == "assertion failed: false" for d in descs):
                 run.add_obligation(short, "kani", "twin-ok", **ob)
                 run.vccs += 1
             else:
@@ -67,7 +70,7 @@ def run_group(run, scr, entries, jobs=12, package="cooklang"):
             continue
         run.log("counterexample for %s: %s - extracting concrete values" % (short, [c["desc"] for c in r["failed_checks"]]))
         plog = os.path.join(run.logdir, "playback-%s.log" % short)
-        tests = kani.playback_print(scr.repo, n, tdir, plog, timeout_s=max(1800, 4 * e.get("budget_s", 300)), package=package)
+        tests = kani.playback_print(scr.repo, n, tdir, plog, timeout_s=int(max(600, 3 * (r.get("time_s") or 200))), package=package)
         tests = [t for t in tests if t["concrete_vals"] is not None]
         confirmed = []
         if tests:
